@@ -33,6 +33,11 @@ def pin(argv: list[str] | None = None) -> None:
     sys.path.insert(0, REPO)
     if VERIF not in sys.path:
         sys.path.insert(1, VERIF)
+    import logging  # noqa: PLC0415
+    import warnings  # noqa: PLC0415
+
+    logging.getLogger("rdflib").setLevel(logging.CRITICAL)  # "does not look like a valid URI"
+    warnings.filterwarnings("ignore")
     assert_repo_pyjelly()
 
 
